@@ -144,6 +144,7 @@ type Lexer struct {
 	preBuiltinRune rune
 	stream         io.RuneScanner
 	next           []io.RuneScanner
+	finished       bool // Parser.EndInput was called: no stream will follow those in next
 	linenum        int
 
 	priori    int
@@ -209,6 +210,7 @@ func (lex *Lexer) Reset() {
 	lex.buffer.Reset()
 	// nothing of an earlier text may influence how the next one is read
 	lex.next = nil
+	lex.finished = false
 	lex.prevrune = 0
 	lex.prevToken = Token{}
 	lex.prevPrevToken = Token{}
@@ -1007,6 +1009,7 @@ func (lex *Lexer) AddNextStream(s io.RuneScanner) {
 	// in case we still have input available,
 	// save new stuff for later
 	lex.next = append(lex.next, s)
+	lex.finished = false
 
 	if lex.stream == nil {
 		lex.PromoteNextStream()
